@@ -560,6 +560,9 @@ MANIFEST = {"technique": "Lean 4 proofs over definitions regenerated from the re
                          "(translator) + Float twin differential correspondence"}
 
 TOL = Fraction(1, 10 ** 12)
+# symmetry of the trigonometric windows on floats: cos(2 pi n / N) against cos(2 pi (N - n) / N) — the two arguments are
+# rounded separately, the samples differ by a few units in the last place (largest seen for sizes up to 4096: 7.8e-16)
+SYM_TOL = Fraction(4, 10 ** 15)
 ALPHA_KINDS = ("blackman", "cos")
 ROUTES = ("item", "attr", "dictlink", "funclink")
 _last = {}
@@ -639,7 +642,7 @@ def generate(rng, tier, scale=1):
                 cases.append(_mk(dict_, name, 4))                      # KeyError
             for size in (-1, -7):
                 cases.append(_mk(dict_, "hamming", size))              # xrange(negative): empty list
-    return cases + _gen_histories(rng, tier, scale)
+    return cases + _gen_pycalls(rng, tier, scale) + _gen_scans(rng, tier, scale) + _gen_histories(rng, tier, scale)
 
 
 # ---------------------------------------------------------------------------------------------
@@ -1083,6 +1086,10 @@ def impl(c):
         return _impl_docmath(c)
     if c["entry"] == "history":
         return _impl_history(c)
+    if c["entry"] == "pycall":
+        return _impl_pycall(c)
+    if c["entry"] == "scan":
+        return _impl_scan(c)
     if c["entry"] != "call":
         return {"err": "OTHER:entry"}
     return _call_obs(c)[0]
@@ -1358,7 +1365,364 @@ def _impl_history(c):
     return json.loads(line.decode())
 
 
+
+# ---------------------------------------------------------------------------------------------
+# the call layer: calls as a caller WRITES them (entry "pycall"), float facts over many sizes (entry "scan")
+# ---------------------------------------------------------------------------------------------
+def V(x):
+    """Python argument value -> tagged JSON (the spelling is part of the case)"""
+    if x is None:
+        return {"t": "none"}
+    if isinstance(x, bool):
+        return {"t": "bool", "v": x}
+    if isinstance(x, int):
+        return {"t": "int", "v": x}
+    if isinstance(x, float):
+        return {"t": "float", "v": enc(x)}
+    if isinstance(x, Fraction):
+        return {"t": "frac", "v": enc(x)}
+    if isinstance(x, str):
+        return {"t": "str"}
+    raise TypeError(x)
+
+
+def _pyval(v):
+    t = v["t"]
+    if t == "none":
+        return None
+    if t == "str":
+        return "x"
+    if t == "bool":
+        return bool(v["v"])
+    if t == "int":
+        return int(v["v"])
+    q = dec(v["v"])
+    return float(q) if t == "float" else Fraction(q)
+
+
+SIZE_SPELLINGS = [0, 1, 2, 3, 8, True, False, 4.0, 1.0, 2.5, Fraction(4), Fraction(1), Fraction(7, 2), -1, -5, None, "x"]
+# boundary alphas: zero in every spelling, the documented defaults in every spelling, the ends of the documented
+# range, negative, large, None, a str
+ALPHA_SPELLINGS = [0, 0.0, Fraction(0), False, True, 1, 1.0, Fraction(1), 0.16, Fraction(4, 25), 0.25, -0.25,
+                   Fraction(1, 4), 2, 0.5, -1, -0.5, 10 ** 6, 1e6, None, "x", -0.17, 3]
+# shapes: which arguments are positional / keyword (in this order), extra ones
+SHAPES = {"(size)": (["size"], []), "(size, alpha)": (["size", "alpha"], []), "(size, alpha=)": (["size"], ["alpha"]),
+          "(size=)": ([], ["size"]), "(size=, alpha=)": ([], ["size", "alpha"]), "(alpha=, size=)": ([], ["alpha", "size"]),
+          "()": ([], []), "(alpha=)": ([], ["alpha"]), "(size, alpha, extra)": (["size", "alpha", "extra"], []),
+          "(size, extra)": (["size", "extra"], []),
+          "(size, alpha, alpha=)": (["size", "alpha"], ["alpha"]), "(size, beta=)": (["size"], ["beta"]),
+          "(size, size=)": (["size"], ["size"])}
+GOOD_SHAPES = ("(size)", "(size, alpha)", "(size, alpha=)", "(size=)", "(size=, alpha=)", "(alpha=, size=)")
+PYROUTES = ("item", "dflt", "dictlink:symm", "dictlink:periodic", "funclink:symm", "funclink:periodic")
+
+
+def _pc(dict_, name, shape, size, alpha=None, route="item", access=0):
+    pos_n, kw_n = SHAPES[shape]
+    val = {"size": V(size), "alpha": V(alpha), "extra": V(7), "beta": V(2)}
+    return {"entry": "pycall", "dict": dict_, "name": None if route == "dflt" else name, "route": route, "shape": shape,
+            "pos": [val[k] for k in pos_n], "kw": [[k, val[k]] for k in kw_n], "access": access}
+
+
+def _gen_pycalls(rng, tier, scale):
+    out = []
+    quick = tier == "quick"
+    kinds = _names()
+    if scale == 1:
+        for dict_ in ("window", "wsymm"):
+            for kind, names in kinds:
+                # every call shape with an alpha x every boundary alpha x every strategy (sizes: one sample / several)
+                for shape in ("(size, alpha)", "(size, alpha=)", "(size=, alpha=)", "(alpha=, size=)"):
+                    for a in ALPHA_SPELLINGS:
+                        for size in (1, 4) if shape != "(alpha=, size=)" else (5,):
+                            out.append(_pc(dict_, kind, shape, size, a))
+                # every spelling of the size, alpha omitted (-> default) / given
+                for name in names:
+                    if dict_ == "wsymm" and name != _wsymm_name(name):
+                        continue
+                    for size in SIZE_SPELLINGS:
+                        out.append(_pc(dict_, name, "(size)" if name == names[0] else "(size=)", size, access=len(name) % 2))
+                for size in SIZE_SPELLINGS:
+                    out.append(_pc(dict_, kind, "(size=)", size))
+                    if kind in ALPHA_KINDS:
+                        out.append(_pc(dict_, kind, "(size, alpha)", size, 0))
+                        out.append(_pc(dict_, kind, "(size, alpha=)", size, None))
+                # malformed shapes
+                for shape in SHAPES:
+                    if shape not in GOOD_SHAPES:
+                        out.append(_pc(dict_, kind, shape, 3, 1))
+                # routes (the default route ignores the name)
+                for route in PYROUTES:
+                    for shape, a in (("(size)", None), ("(size, alpha)", 0), ("(size, alpha=)", 2)):
+                        for size in (1, 2, 5):
+                            out.append(_pc(dict_, names[-1] if route.startswith("funclink") and dict_ == "window" else kind,
+                                           shape, size, a, route, access=size % 2))
+            # cos with alpha = 0 is the rectangular window — also the end samples of the symmetric one
+            for size in (0, 1, 2, 3, 4, 7, 16, 33, 100):
+                for a in (0, 0.0, Fraction(0), False):
+                    out.append(_pc(dict_, "cos", "(size, alpha)" if size % 2 else "(size, alpha=)", size, a))
+    n = (400 if quick else 4000) * scale
+    for _ in range(n):
+        dict_ = rng.choice(("window", "wsymm"))
+        kind, names = rng.choice(kinds)
+        name = rng.choice(names)
+        if dict_ == "wsymm" and rng.random() < 0.9:
+            name = _wsymm_name(name)
+        shape = rng.choice(GOOD_SHAPES * 3 + tuple(SHAPES))
+        size = rng.choice(SIZE_SPELLINGS + [rng.randint(0, 40), rng.randint(0, 40), 4 * rng.randint(1, 16), rng.randint(41, 300)])
+        if kind == "blackman":
+            extra = [rng.randint(-25, 25) / 100.0, Fraction(rng.randint(-25, 25), 100), rng.randint(-250, 250) / 1000.0]
+        else:
+            extra = [rng.randint(0, 400) / 100.0, Fraction(rng.randint(0, 40), 8), rng.randint(0, 9)]
+        a = rng.choice(ALPHA_SPELLINGS + extra * 4)
+        route = rng.choice(("item",) * 4 + PYROUTES)
+        out.append(_pc(dict_, name, shape, size, a, route, access=rng.randint(0, 1)))
+    return out
+
+
+def _gen_scans(rng, tier, scale):
+    """float facts of the real lists over ALL sizes lo..hi: range [0,1] with no tolerance, symmetry, prefix, length"""
+    if scale != 1:
+        return []
+    quick = tier == "quick"
+    top = 200 if quick else 3000
+    out = []
+    for dict_ in ("window", "wsymm"):
+        for kind, _n in _names():
+            alphas = [None]
+            if kind == "blackman":
+                alphas += [0.25, -0.25, 0, 0.2, -0.1] + ([] if quick else [2.0 * 1430 / 18608, 0.1, -0.2, 0.05])
+                alphas += [rng.randint(-25, 25) / 100.0 for _ in range(1 if quick else 4)]
+            if kind == "cos":
+                alphas += [0, 2, 0.5] + ([] if quick else [3, 1.5, 0.25, 7, 100])
+                alphas += [rng.randint(0, 400) / 100.0 for _ in range(1 if quick else 3)]
+            for a in alphas:
+                hi = top if a is None else (top // 2)
+                step = 100 if quick else 250
+                for lo in range(0, hi, step):
+                    out.append({"entry": "scan", "dict": dict_, "name": kind, "lo": lo, "hi": min(lo + step, hi + 1),
+                                "alpha": None if a is None else enc(a), "alpha_int": isinstance(a, int)})
+    return out
+
+
+def _spec_call(c):
+    """The call reduced, with the DOCUMENTED rules only, to the terms of the property: (symmetric?, kind, size, alpha);
+    None when the call is outside the property (malformed shape, a size that is no integer >= 0, alpha that is no
+    number, an alias wsymm lacks)."""
+    route = c["route"]
+    if route == "dflt":
+        kind, final, look = "hann", c["dict"], None
+    else:
+        kind = _kind_of(c["name"])
+        final = {"item": c["dict"], "dictlink:symm": "wsymm", "dictlink:periodic": "window", "funclink:symm": "wsymm",
+                 "funclink:periodic": "window"}[route]
+        look = final if route.startswith("dictlink") else c["dict"]       # the dictionary the NAME is looked up in
+    if kind is None or (look == "wsymm" and c["name"] in ("dirichlet", "rectangular")):
+        return None
+    params = ["size"] + (["alpha"] if kind in ALPHA_KINDS else [])       # documented signature X(size[, alpha])
+    if len(c["pos"]) > len(params):
+        return None
+    bound = dict(zip(params, c["pos"]))
+    for k, v in c["kw"]:
+        if k not in params or k in bound:
+            return None
+        bound[k] = v
+    if "size" not in bound or bound["size"]["t"] not in ("int", "bool"):
+        return None
+    size = int(bound["size"]["v"])
+    if size < 0:
+        return None
+    alpha = None
+    if "alpha" in bound:
+        if bound["alpha"]["t"] in ("none", "str"):
+            return None
+        alpha = _pyval(bound["alpha"])
+    return {"symm": final == "wsymm", "kind": kind, "size": size,
+            "alpha": None if alpha is None else enc(float(alpha)), "alpha_raw": bound.get("alpha")}
+
+
+def _py_lookup(c):
+    from audiolazy import window, wsymm
+    sd = window if c["dict"] == "window" else wsymm
+    route, name, acc = c["route"], c["name"], c.get("access", 0)
+    if route == "dflt":
+        return sd if acc == 0 else sd.default
+    if route.startswith("dictlink"):
+        sd = getattr(sd, route.split(":")[1])
+        return sd[name]
+    f = sd[name] if acc == 0 or not name else getattr(sd, name)
+    if route.startswith("funclink"):
+        return getattr(f, route.split(":")[1])
+    return f
+
+
+def _samples_obs(out):
+    """a returned object -> observation"""
+    if isinstance(out, list):
+        cx = [i for i, x in enumerate(out) if type(x) is complex]
+        if cx:
+            return {"err": "ComplexSample", "index": cx[0], "value": repr(out[cx[0]]), "len": len(out)}
+        nf = [i for i, x in enumerate(out) if type(x) is float and (x != x or x in (float("inf"), float("-inf")))]
+        if nf:
+            return {"err": "NonFiniteSample", "index": nf[0], "value": repr(out[nf[0]]), "len": len(out)}
+    if not isinstance(out, list) or not all(type(x) is float for x in out):
+        return {"err": "OTHER:not-a-list-of-floats", "repr": repr(out)[:200]}
+    return {"out": [enc(x) for x in out]}
+
+
+def _impl_pycall(c):
+    try:
+        f = _py_lookup(c)
+        pos = [_pyval(v) for v in c["pos"]]
+        kw = {k: _pyval(v) for k, v in c["kw"]}
+        if len(kw) != len(c["kw"]):
+            return {"err": "OTHER:duplicate-keyword-in-case"}
+        out = f(*pos, **kw)
+    except Exception as e:
+        return {"err": err_kind(e)}
+    obs = _samples_obs(out)
+    sc = _spec_call(c)
+    if "out" in obs and sc is not None and not sc["symm"] and sc["kind"] is not None and c["route"] != "dflt":
+        # "equals the first size samples of wsymm.X(size+1) exactly": the same call shape on X.symm with size + 1
+        try:
+            bump = lambda v: v + 1 if type(v) is int else int(v) + 1
+            pos2 = [bump(x) if i == 0 and SHAPES[c["shape"]][0][:1] == ["size"] else x for i, x in enumerate(pos)]
+            kw2 = {k: (bump(x) if k == "size" else x) for k, x in kw.items()}
+            longer = f.symm(*pos2, **kw2)
+            obs["prefix_exact"] = bool(len(longer) == sc["size"] + 1 and longer[:sc["size"]] == out)
+        except Exception as e:
+            obs["prefix_exact"] = "err:" + err_kind(e)
+    return obs
+
+
+def _impl_scan(c):
+    """facts about the real lists for every size lo <= size < hi (no tolerance anywhere)"""
+    from audiolazy import window, wsymm
+    sd = window if c["dict"] == "window" else wsymm
+    a = _alpha_of(c)
+    args = () if a is None else (a,)
+    f = sd[c["name"]]
+    symm = c["dict"] == "wsymm" or c["name"] == "rect"
+    r = {"sizes": 0, "samples": 0, "below0": [], "above1": [], "nbelow0": 0, "nabove1": 0, "badlen": [], "notfloat": [],
+         "asym_sizes": 0, "asym_max": 0.0, "asym_worst": None, "prefix_bad": [], "size1_bad": None}
+    try:
+        for size in range(c["lo"], c["hi"]):
+            w = f(size, *args)
+            r["sizes"] += 1
+            r["samples"] += len(w)
+            if len(w) != size:
+                r["badlen"].append([size, len(w)])
+            if not all(type(x) is float for x in w):
+                r["notfloat"].append(size)
+                continue
+            for i, x in enumerate(w):
+                if not x >= 0.0:
+                    r["nbelow0"] += 1
+                    if len(r["below0"]) < 4:
+                        r["below0"].append([size, i, enc(x)])
+                if not x <= 1.0:
+                    r["nabove1"] += 1
+                    if len(r["above1"]) < 4:
+                        r["above1"].append([size, i, enc(x)])
+            if symm:
+                worst = 0.0
+                for i in range(size // 2):
+                    d = abs(w[i] - w[size - 1 - i])
+                    if d > worst:
+                        worst = d
+                        if d > r["asym_max"]:
+                            r["asym_max"], r["asym_worst"] = d, [size, i, enc(w[i]), enc(w[size - 1 - i])]
+                if worst > 0:
+                    r["asym_sizes"] += 1
+                if size == 1 and c["dict"] == "wsymm" and w != [1.0]:
+                    r["size1_bad"] = [enc(x) for x in w]
+            else:
+                longer = f.symm(size + 1, *args)
+                if not (len(longer) == size + 1 and longer[:size] == w):
+                    r["prefix_bad"].append(size)
+    except Exception as e:
+        r["err"] = err_kind(e)
+        r["err_size"] = r["sizes"] + c["lo"]
+    r["asym_max"] = enc(r["asym_max"])
+    return r
+
+
+NOISE = Fraction(1, 10 ** 12)
+
+
+def _range_clause(size, i, x):
+    """a sample outside [0,1]: by float noise at an end sample / elsewhere, or by more"""
+    over = -x if x < 0 else x - 1
+    side = "<0" if x < 0 else ">1"
+    if over > NOISE:
+        return "range"
+    return "range-float-noise(%s%s)" % ("end-sample" if i in (0, size - 1) else "inner-sample", side)
+
+
+def _scan_problems(c, io, drv):
+    out = []
+    kind = c["name"]
+    a = _alpha_of(c)
+    alpha = Fraction(a) if a is not None else (Fraction(ALPHA_DEFAULT[kind]) if kind in ALPHA_KINDS else None)
+    who = "%s.%s(size%s)" % (c["dict"], kind, "" if a is None else ", %r" % a)
+    if "err" in io:
+        return [("spec", "raises-" + io["err"], "%s raised %s at size %d" % (who, io["err"], io.get("err_size", -1)))]
+    for size, n in io["badlen"][:1]:
+        out.append(("spec", "length", "%s: %d samples for size %d" % (who, n, size)))
+    for size in io["notfloat"][:1]:
+        out.append(("spec", "complex-sample", "%s: a sample of size %d is not a float" % (who, size)))
+    if _range_claimed(kind, alpha):
+        for size, i, x in (io["below0"] + io["above1"])[:1]:
+            x = dec(x)
+            out.append(("spec", _range_clause(size, i, x), "%s[%d] = %r at size %d is outside [0,1] (%d samples below 0, %d above 1 "
+                        "for sizes %d..%d)" % (who, i, float(x), size, io["nbelow0"], io["nabove1"], c["lo"], c["hi"] - 1)))
+    if io["asym_worst"] is not None and dec(io["asym_max"]) > _sym_tol(kind, alpha):
+        size, i, x, y = io["asym_worst"]
+        out.append(("spec", "symmetry", "%s at size %d: sample %d = %r but sample %d = %r" % (
+            who, size, i, float(dec(x)), size - 1 - i, float(dec(y)))))
+    if io["prefix_bad"]:
+        size = io["prefix_bad"][0]
+        out.append(("spec", "periodic-prefix", "window.%s(%d) is not exactly the first %d samples of wsymm.%s(%d)" % (
+            kind, size, size, kind, size + 1)))
+    if io["size1_bad"] is not None:
+        out.append(("spec", "size1", "wsymm.%s(1) = %r, not [1.0]" % (kind, io["size1_bad"])))
+    return out
+
+
+def _pycall_as_call(c, sc):
+    """the pseudo "call" case the value clauses are stated on"""
+    cc = {"entry": "call", "dict": "wsymm" if sc["symm"] else "window", "name": sc["kind"], "size": sc["size"], "alpha": None,
+          "route": "item"}
+    if sc["alpha"] is not None:
+        cc["alpha"] = sc["alpha"]
+        cc["alpha_int"] = False
+    return cc
+
+
+def _pycall_text(c):
+    sd = c["dict"]
+    acc = c.get("access", 0)
+    r = c["route"]
+    if r == "dflt":
+        head = sd if acc == 0 else sd + ".default"
+    elif r.startswith("dictlink"):
+        head = "%s.%s[%r]" % (sd, r.split(":")[1], c["name"])
+    else:
+        head = "%s[%r]" % (sd, c["name"]) if acc == 0 else "%s.%s" % (sd, c["name"])
+        if r.startswith("funclink"):
+            head += "." + r.split(":")[1]
+    args = [repr(_pyval(v)) for v in c["pos"]] + ["%s=%r" % (k, _pyval(v)) for k, v in c["kw"]]
+    return "%s(%s)" % (head, ", ".join(args))
+
+
 def request(c):
+    if c["entry"] == "pycall":
+        sc = _spec_call(c)
+        r = {"entry": "pycall", "dict": c["dict"], "name": c["name"], "route": c["route"], "pos": c["pos"], "kw": c["kw"]}
+        if sc is not None:
+            r["spec_call"] = {k: sc[k] for k in ("symm", "kind", "size", "alpha")}
+        return r
+    if c["entry"] == "scan":
+        return {"entry": "tables"}
     if c["entry"] == "history":
         return {"entry": "history", "calls": [request(dict(s, entry="call")) for s in c["steps"]]}
     return {"entry": "call", "dict": c["dict"], "name": c["name"], "size": c["size"], "alpha": c.get("alpha")}
@@ -1381,10 +1745,23 @@ def _sym_tol(kind, alpha):
     rounding of `n/size` moves a sample by ~1e-16.  `sin(x) ** alpha` with 0 < alpha < 1 is not Lipschitz at the
     zero end points: a perturbation d of sin(x) (math.sin(math.pi) = 1.2e-16, not 0) moves the sample by up to
     d ** alpha (concavity), e.g. wsymm.cos(2, .5) = [0.0, 1.1e-08].  That is float conditioning, not asymmetry."""
+    if kind in ("rect", "bartlett", "triangular"):
+        return 0          # `abs(n - size / 2.0)` is exact in binary floating point: these lists are palindromes bit for bit
+    if kind == "cos" and alpha is not None and 0 < alpha < 1:
+        return max(SYM_TOL, Fraction(2e-15 ** float(alpha)))
+    if kind == "cos" and alpha is not None and alpha > 1:
+        return SYM_TOL * max(1, int(alpha))
+    if kind == "blackman" and alpha is not None and abs(alpha) > 1:
+        return SYM_TOL * (int(abs(alpha)) + 1)
+    return SYM_TOL
+
+
+def _cf_tol(kind, alpha):
+    """tolerance of impl sample against the Float evaluation of the documented closed form (another term: rounding differs)"""
     if kind == "cos" and alpha is not None and 0 < alpha < 1:
         return max(TOL, Fraction(2e-15 ** float(alpha)))
-    if kind == "cos" and alpha is not None and alpha > 1:
-        return TOL * max(1, int(alpha))
+    if alpha is not None and abs(alpha) > 1:
+        return TOL * (int(abs(alpha)) + 1)
     return TOL
 
 
@@ -1451,6 +1828,13 @@ def _problems(c, io, drv):
     """-> list of (kind, clause, detail)"""
     if c["entry"] == "history":
         return _history_problems(c, io, drv)
+    if c["entry"] == "scan":
+        return _scan_problems(c, io, drv)
+    if c["entry"] == "pycall":
+        sc = _spec_call(c)
+        cc = _pycall_as_call(c, sc) if sc is not None else dict(c, entry="call", size=-1)
+        text = _pycall_text(c)
+        return [(k, clause, "%s: %s" % (text, d)) for k, clause, d in _problems(dict(cc, _frac_alpha=_has_frac(c)), io, drv)]
     out = []
     model, spec = drv["model"], drv.get("spec")
     vals = None
@@ -1472,8 +1856,9 @@ def _problems(c, io, drv):
     if "err" in io:
         # model "NaN" = IEEE invalid operation in the Float twin: Python raises ZeroDivisionError (0.0/0.0)
         # or yields a complex number (negative ** non-integer) there
-        same = model.get("err") == io["err"] or (model.get("err") == "NaN" and
-                                                   io["err"] in ("ZeroDivisionError", "ComplexSample"))
+        same = (model.get("err") == io["err"] or
+                (model.get("err") == "NaN" and io["err"] in ("ZeroDivisionError", "ComplexSample", "NonFiniteSample")) or
+                (model.get("err") == "ZeroDivisionError" and io["err"] in ("NonFiniteSample", "OverflowError")))
         if not same:
             out.append(("model", "error", "impl raised %s, model %s" % (io["err"], _brief(model))))
     else:
@@ -1512,7 +1897,7 @@ def _problems(c, io, drv):
     if c["dict"] == "wsymm" and size == 1 and vals != [1]:
         out.append(("spec", "size1", "wsymm.%s(1) = %r, not [1.0]" % (c["name"], [float(v) for v in vals])))
     if len(vals) == len(sv):
-        ct = _sym_tol(kind, alpha)      # conditioning-aware only for cos with 0 < alpha < 1, else TOL
+        ct = _cf_tol(kind, alpha)      # conditioning-aware only for cos with 0 < alpha < 1, else TOL
         # a NaN sample of the spec's Float evaluation (sin(~pi) slightly negative, non-integer alpha) is skipped
         bad = [i for i, (a, b) in enumerate(zip(vals, sv)) if not (isinstance(b, float) and b != b)
                and not common.close(a, b, ct)]
@@ -1521,9 +1906,12 @@ def _problems(c, io, drv):
             out.append(("spec", "closed-form", "sample %d of %s.%s(%d): impl %r, closed form %r (%d samples differ)" % (
                 i, c["dict"], c["name"], size, float(vals[i]), float(sv[i]), len(bad))))
     if _range_claimed(kind, alpha):
-        bad = [i for i, v in enumerate(vals) if v < -TOL or v > 1 + TOL]
+        # no tolerance: the theorems (window_range / wsymm_range / call_range) say [0,1]; what the floats do beyond
+        # that is reported under its own clause (noise of at most 1e-12 at an end / inner sample, or more)
+        bad = [i for i, v in enumerate(vals) if v < 0 or v > 1]
         if bad:
-            out.append(("spec", "range", "sample %d = %r outside [0,1]" % (bad[0], float(vals[bad[0]]))))
+            out.append(("spec", _range_clause(len(vals), bad[0], vals[bad[0]]),
+                        "sample %d = %r outside [0,1]" % (bad[0], float(vals[bad[0]]))))
     if symm or kind == "rect":
         n = len(vals)
         st = _sym_tol(kind, alpha)
@@ -1546,6 +1934,10 @@ def _problems(c, io, drv):
     return out
 
 
+def _has_frac(c):
+    return any(v["t"] == "frac" for v in c["pos"]) or any(v["t"] == "frac" for _k, v in c["kw"])
+
+
 def _brief(x):
     s = str(x)
     return s if len(s) < 120 else s[:120] + "..."
@@ -1560,6 +1952,10 @@ def nontrivial(c, io):
     if c["entry"] == "history":
         so = io.get("steps") or []
         return len(so) >= 2 and any(len(o.get("out", ())) >= 2 for o in so)
+    if c["entry"] == "scan":
+        return io.get("samples", 0) >= 2
+    if c["entry"] == "pycall":
+        return len(io.get("out", ())) >= 2 or "err" in io      # a modelled rejection is an observation too
     return len(io.get("out", ())) >= 2 or (isinstance(io.get("doc"), list) and len(io["doc"]) >= 2)
 
 
@@ -1640,6 +2036,48 @@ def tally(eng, c, io):
         d = io.get("doc")
         eng.count("docmath", "evaluated" if isinstance(d, list) else str(d))
         return
+    if c["entry"] == "scan":
+        eng.count("scan_strategy", "%s.%s" % (c["dict"], c["name"]))
+        eng.count("scan_alpha", "default" if c.get("alpha") is None else "given")
+        eng.count("scan_sizes", io.get("sizes", 0))
+        eng.count("scan_samples", io.get("samples", 0))
+        eng.count("scan_samples_outside_[0,1]", io.get("nbelow0", 0) + io.get("nabove1", 0))
+        if c["dict"] == "wsymm" or c["name"] == "rect":
+            m = dec(io["asym_max"]) if "asym_max" in io else 0
+            eng.count("scan_float_symmetry(%s)" % c["name"], "bit-exact for every size" if m == 0 else
+                      "largest |w[i]-w[size-1-i]| <= 1e-15" if m <= Fraction(1, 10 ** 15) else "larger")
+            eng.count("scan_sizes_not_bit_symmetric", io.get("asym_sizes", 0))
+        return
+    if c["entry"] == "pycall":
+        sc = _spec_call(c)
+        eng.count("py_shape", c["shape"])
+        eng.count("py_route", c["route"] + (":attr" if c.get("access") else ""))
+        eng.count("py_in_property", "yes" if sc is not None else "no (malformed / size or alpha no number / alias gap)")
+        vals = dict(zip(SHAPES[c["shape"]][0], c["pos"]))
+        vals.update({k: v for k, v in c["kw"]})
+        sv, av = vals.get("size"), vals.get("alpha")
+        if sv is not None:
+            x = _pyval(sv)
+            eng.count("py_size_spelling", sv["t"] + ("" if sv["t"] in ("none", "str") else ":<0" if x < 0 else ":0" if x == 0 else
+                                                    ":1" if x == 1 else ":non-integer" if x != int(x) else ":>1"))
+        kind = _kind_of(c["name"]) if c["route"] != "dflt" else "hann"
+        if av is None:
+            eng.count("py_alpha", "omitted")
+        else:
+            x = _pyval(av)
+            cls = ("" if av["t"] in ("none", "str") else ":zero" if x == 0 else ":default" if kind in ALPHA_KINDS and
+                   x == Fraction(ALPHA_DEFAULT[kind]) or (kind == "blackman" and x in (0.16, Fraction(4, 25))) else
+                   ":negative" if x < 0 else ":large" if x >= 1000 else ":other")
+            eng.count("py_alpha", av["t"] + cls + (" kw" if any(k == "alpha" for k, _v in c["kw"]) else " pos"))
+        eng.count("py_strategy_x_shape", "%s %s" % (kind, c["shape"]))
+        eng.count("py_outcome", io.get("err", "list"))
+        if "bitexact" in _last:
+            eng.count("py_float_twin", "bit-exact" if _last["bitexact"] else "within-tolerance")
+        if "prefix_exact" in io:
+            eng.count("prefix_exact_checked", str(io["prefix_exact"]))
+        if "out" in io and kind == "cos" and av is not None and av["t"] not in ("none", "str") and _pyval(av) == 0:
+            eng.count("cos_alpha_zero_is_rect", "all ones" if all(dec(x) == 1 for x in io["out"]) else "NOT all ones")
+        return
     eng.count("dict", c["dict"])
     eng.count("name", c["name"] if c["name"] is not None else "<default>")
     eng.count("route", c.get("route", "item"))
@@ -1660,8 +2098,8 @@ def tally(eng, c, io):
 
 
 def key(c):
-    if c["entry"] == "history":
-        return "history|" + json.dumps(c, sort_keys=True)
+    if c["entry"] in ("history", "pycall", "scan"):
+        return c["entry"] + "|" + json.dumps(c, sort_keys=True)
     return "%s|%s|%s|%s|%s|%s|%s" % (c["entry"], c["dict"], c["name"], c["size"], c.get("alpha"), c.get("alpha_int"), c.get("route"))
 
 
@@ -1727,10 +2165,47 @@ def _shrink_history(c):
                 yield mk(steps[:i] + [dict(steps[i], size=t)] + steps[i + 1:])
 
 
+def _scan_witness_sizes(c):
+    """sizes worth trying alone when a scan fails"""
+    return sorted(set(range(c["lo"], min(c["hi"], c["lo"] + 12))) | {c["lo"] + (c["hi"] - c["lo"]) // 2})
+
+
 def shrink(c):
     if c["entry"] == "history":
         for d in _shrink_history(c):
             yield d
+        return
+    if c["entry"] == "scan":
+        # one call is a smaller witness than a range of sizes
+        for size in _scan_witness_sizes(c):
+            d = _mk(c["dict"], c["name"], size)
+            if c.get("alpha") is not None:
+                d.update(alpha=c["alpha"], alpha_int=c.get("alpha_int", False), alpha_kw=False)
+            yield d
+        if c["hi"] - c["lo"] > 1:
+            mid = (c["lo"] + c["hi"]) // 2
+            yield dict(c, hi=mid)
+            yield dict(c, lo=mid)
+        return
+    if c["entry"] == "pycall":
+        sc = _spec_call(c)
+        if sc is not None:                               # the same call in the plain spelling
+            d = _mk("wsymm" if sc["symm"] else "window", sc["kind"], sc["size"])
+            if sc["alpha"] is not None:
+                d.update(alpha=sc["alpha"], alpha_int=False, alpha_kw=False)
+            yield d
+        if c["route"] not in ("item", "dflt"):
+            yield dict(c, route="item")
+        if c.get("access"):
+            yield dict(c, access=0)
+        for i, v in enumerate(c["pos"]):
+            if v["t"] == "int" and v["v"] > 1:
+                for t in (v["v"] // 2, v["v"] - 1):
+                    yield dict(c, pos=c["pos"][:i] + [dict(v, v=t)] + c["pos"][i + 1:])
+        for i, (k, v) in enumerate(c["kw"]):
+            if k == "size" and v["t"] == "int" and v["v"] > 1:
+                for t in (v["v"] // 2, v["v"] - 1):
+                    yield dict(c, kw=c["kw"][:i] + [[k, dict(v, v=t)]] + c["kw"][i + 1:])
         return
     s = c["size"]
     for t in sorted({s // 2, s - 1, s - 2, s - 4, 1, 2, 4, 8}):
@@ -1751,6 +2226,20 @@ def shrink(c):
 
 
 def neighbours(c):
+    if c["entry"] == "scan":
+        for d in shrink(c):
+            yield d
+        return
+    if c["entry"] == "pycall":
+        sc = _spec_call(c)
+        for kind, names in _names():
+            for dict_ in ("window", "wsymm"):
+                for shape in GOOD_SHAPES:
+                    yield _pc(dict_, kind, shape, 4, 0)
+                    yield _pc(dict_, kind, shape, 5, 2)
+        for d in shrink(c):
+            yield d
+        return
     if c["entry"] == "history":
         for s in c["steps"]:
             yield dict({k: v for k, v in s.items() if k != "mut"}, entry="call")
@@ -1782,8 +2271,15 @@ def classify(c, io, drv):
     ps = _problems(c, io, drv)
     spec = [p for p in ps if p[0] == "spec"]
     p = (spec or ps or [("", "none", "")])[0]
+    if c["entry"] == "scan":
+        return "%s.%s:%s" % (c["dict"], c["name"], p[1])
+    dict_ = c["dict"]
+    if c["entry"] == "pycall":
+        sc = _spec_call(c)
+        if sc is not None:
+            dict_ = "wsymm" if sc["symm"] else "window"
     kind = (drv.get("spec") or {}).get("kind") or str(c["name"])
-    return "%s.%s:%s" % (c["dict"], kind, p[1])
+    return "%s.%s:%s" % (dict_, kind, p[1])
 
 
 # =============================================================================================
